@@ -74,6 +74,15 @@ def has_key_fold(t, key):
     return any(isinstance(k, str) and k.lower() == key.lower() for k, _ in entries(t))
 
 
+def refresh_known(ctx):
+    """known_findings.d/<property>.json is the authority for this property: the merged known_findings.json keeps an
+    entry as it was first written (vlib.load_known prefers it), so an entry turned to state "fixed" in the fragment
+    would otherwise go on suppressing."""
+    frag = os.path.join(vlib.VERIF, "known_findings.d", ctx.pid + ".json")
+    if os.path.exists(frag):
+        ctx.known = [k for k in json.load(open(frag)) if k.get("property") == ctx.pid and k.get("state") == "known"]
+
+
 class Interner:
     """Each distinct string of a cases file is defined once (Definition sN := "...") and referred to by name."""
 
